@@ -6,6 +6,10 @@ ALL = ["C%02d" % i for i in range(1, 21)]
 
 # id -> (engine, level, technique, text, note, design_ref)
 CHECKS = {
+ "C13": ("mc-sched", "model_checking",
+   "controlled-scheduler exploration of real threads (shuttle runtime, own delay-/preemption-bounded DFS scheduler) over the real stage functions and bounded channels",
+   "All schedules within the stated delay bound (every pipeline shape) and preemption bound (the shapes where it stays feasible) of 3-6 real threads running adlt's real stage functions over real sync_channels of capacity 0/1/2 written through the real blocking-send helper are executed; drained pipelines must equal the sequential unbounded reference (sequence, or multiset when sorted, and final lifecycle table), dropped consumers must let every thread terminate (shuttle reports a deadlock otherwise). Also checks in the consumer thread that each delivered message's lifecycle is already published (C06, cross-thread).",
+   "Trusted: shuttle's modelling of mpsc channels/sleep/spawn/join; adlt built with cfg adlt_verif_sched (channel import switch only). Not covered: weak-memory effects, production channel capacities, schedules beyond the bounds.", "4 C13"),
  "C01": ("mc-seq", "exploration",
    "exhaustive enumeration of a message-shape x garbage x framing product on the real DltMessageIterator against an independent byte builder",
    "Every stream of the stated finite product (all 32 header-flag sets, payload sizes incl. maximum, id/counter variants, 12 garbage lengths x 8 contents before/between/after, both framings, singles / all ordered shape pairs / core triples) is parsed by the real iterator and compared field by field with an independently written builder, incl. the skipped/processed counters. Coverage statement for the product, not for all byte values.",
@@ -54,7 +58,7 @@ def main():
     hook_ids = [l.split()[0] for l in hooks_commits if " verif hook" in l]
     m = {
       "version": 1,
-      "setup_cmd": "cd /verif/mc && CARGO_NET_OFFLINE=true cargo build --release --offline",
+      "setup_cmd": "cd /verif/mc && CARGO_NET_OFFLINE=true cargo build --release --offline && cd /verif/mc-sched && CARGO_NET_OFFLINE=true cargo build --release --offline",
       "hooks": {
         "guard": "--cfg adlt_verif (library+binary hooks) and --cfg adlt_verif_sched (shuttle channel switch, library only)",
         "enable": "RUSTFLAGS=--cfg adlt_verif via /verif/mc/.cargo/config.toml (mc-seq/cli/remote); RUSTFLAGS='--cfg adlt_verif --cfg adlt_verif_sched' via /verif/mc-sched/.cargo/config.toml (scheduler engine)",
@@ -63,6 +67,8 @@ def main():
         "add_only": True,
       },
       "engines": [
+        {"name": "mc-sched", "path": "/verif/mc-sched", "serves_properties": ["C13"],
+         "kind_free_text": "shuttle runtime + own bounded DFS scheduler over real adlt stage threads (cfg adlt_verif_sched)"},
         {"name": "mc-seq", "path": "/verif/mc", "serves_properties": [p for p in ALL if p in CHECKS and CHECKS[p][0]=="mc-seq"],
          "kind_free_text": "Rust explorers linked against /repo's library (cfg adlt_verif): exhaustive enumeration of input-shape products, operation sequences, deviation-bounded event streams and explicit-state BFS by re-execution, sharded over worker processes"},
       ],
